@@ -42,8 +42,7 @@ Definition sinv (s : socket) : Prop := zwp_ok s /\ rmss_ok s /\ synfw_ok s.
    number (Socket::new refuses more than 2^30), so that the window just advertised never looks
    "more than doubled" again *)
 Definition rx_ok (s : socket) : Prop :=
-  0 <= s_remote_win_shift s /\ 0 <= rb_window (s_rx_buffer s) < 2 ^ 31 /\
-  0 <= rb_len (s_rx_buffer s) /\ u32 (s_remote_seq_no s).
+  0 <= s_remote_win_shift s /\ 0 <= rb_window (s_rx_buffer s) < 2 ^ 31.
 
 (* the user-settable keep-alive interval is not zero (set_keep_alive(Some(0)) makes every dispatch
    send a keep-alive: [burst_keep_alive_zero_refuted] in TcpBurstProofs.v) *)
